@@ -230,7 +230,7 @@ def main(pid, tier):
             for vs in dd.valsets_for(b):
                 if vs == 'srcinf':
                     continue          # (C03's known finding about source text; not a persistence matter)
-                combos.append((b, ks, vs))
+                combos.append((b, ks, 'none12' if vs == 'nonev' else vs))
     jobs = []
     root = common.scratch('persist-run')
     for n, ops in enumerate(behaviours):
